@@ -47,6 +47,8 @@ type Hub struct {
 	KeepLog bool
 	// OnWrite is called (hub mutex held) for every datagram written.
 	OnWrite func(d *Dgram)
+	// OnDeliver is called (no lock held) for every datagram that is queued at a receiver.
+	OnDeliver func(src, dst string, data []byte)
 	// Dropped counts datagrams that could not be queued (receiver closed/absent/inbox full).
 	Dropped int
 }
@@ -143,6 +145,9 @@ func (h *Hub) deliver(src, dst string, data []byte) {
 		h.Dropped++
 		h.mu.Unlock()
 	case c.inbox <- inMsg{from: sa, data: data}:
+		if h.OnDeliver != nil {
+			h.OnDeliver(src, dst, data)
+		}
 	default:
 		h.mu.Lock()
 		h.Dropped++
